@@ -260,6 +260,15 @@ Theorem C01_fp3_rounding_uniform :
 Proof. exact fp3_rounding_uniform. Qed.
 Print Assumptions C01_fp3_rounding_uniform.
 
+(** rows and columns add up: the per-row / per-column bounds above bound the change of the plain sum over all cells of all
+    bunches ([g i], [h i]: output and input sum of row i) *)
+Theorem C01_rows_add_up :
+  forall (lo : Z) (len : nat) (g h b : Z -> R),
+    (forall i, lo <= i < lo + Z.of_nat len -> (Rabs (g i - h i) <= b i)%R) ->
+    (Rabs (sumZ (K:=RF) lo len g - sumZ (K:=RF) lo len h) <= sumZ (K:=RF) lo len b)%R.
+Proof. exact rows_add_up. Qed.
+Print Assumptions C01_rows_add_up.
+
 (** the same for ANY energy axis (the float axis of the implementation is uniform only up to rounding): the
     column sum of the exact 3-point table is 1 + e1 (1 - (p(k+1) - p(k-1)) / (2 delta)) with damping, 1 without *)
 Theorem C01_fp3_column_sum_any_axis :
